@@ -6,6 +6,7 @@ import (
 	"os"
 	"sort"
 	"strings"
+	"sync"
 
 	"golang.org/x/tools/go/ssa"
 )
@@ -415,8 +416,41 @@ func (dv *driver) actionFrame(se *scanEngine) {
 	dv.actionKeys = keys
 }
 
-// setup configures the symbolic executor of one region for the driver.
-func (dv *driver) setup(se *scanEngine, x *Exec) {
+// driverTables returns the table facts of a generated parser package (nil for other packages); cached.
+func (w *World) driverTables(pkg string) *driver {
+	name := ""
+	switch pkg {
+	case modPath + "/internal/php7":
+		name = "php7"
+	case modPath + "/internal/php5":
+		name = "php5"
+	default:
+		return nil
+	}
+	drvCacheMu.Lock()
+	defer drvCacheMu.Unlock()
+	if dv, ok := drvCache[w][name]; ok {
+		return dv
+	}
+	if drvCache[w] == nil {
+		drvCache[w] = map[string]*driver{}
+	}
+	se, err := newDrvEngine(w, name, nil)
+	if err != nil {
+		drvCache[w][name] = nil
+		return nil
+	}
+	drvCache[w][name] = se.drv
+	return se.drv
+}
+
+var (
+	drvCacheMu sync.Mutex
+	drvCache   = map[*World]map[string]*driver{}
+)
+
+// setupTables makes the parse tables, their facts and the package constants available to an executor.
+func (dv *driver) setupTables(x *Exec) {
 	x.roTables = map[string]bool{}
 	for t, a := range dv.tables {
 		if len(a) > 0 {
@@ -424,11 +458,28 @@ func (dv *driver) setup(se *scanEngine, x *Exec) {
 		}
 	}
 	x.constGlobal = dv.constG
-	x.skipStruct = se.structRef
-	x.closures = map[ssa.Value]*ssa.MakeClosure{}
 	if dv.parserT != nil {
 		x.ifaceImpl = map[string]*types.Named{"yyLexer": dv.parserT}
 	}
+	x.extraBinds = dv.tableBinds()
+	for _, f := range dv.facts {
+		if !f.ok {
+			continue
+		}
+		ifc := &frameCtx{pkgPath: dv.pkg, fn: dv.fn, params: map[string]TV{}, env: map[ssa.Value]Val{}}
+		st := &State{Guard: tTrue, Heap: map[string]*Term{}, Alloc: mkInt(0)}
+		for _, cj := range conjuncts(x.evalBool(ifc, st, f.expr, dv.tableBinds())) {
+			x.Sc.AssertTop(cj)
+		}
+		x.Assumed["table fact "+f.name+" of "+dv.name+".go (decided by exhaustive evaluation of the arrays as they stand)"] = true
+	}
+}
+
+// setup configures the symbolic executor of one region for the driver.
+func (dv *driver) setup(se *scanEngine, x *Exec) {
+	dv.setupTables(x)
+	x.skipStruct = se.structRef
+	x.closures = map[ssa.Value]*ssa.MakeClosure{}
 	x.assumeReq = func(callee string, r *CExpr) bool {
 		if strings.Contains(r.String(), "lexinv(") {
 			x.Assumed["object invariant of the scanner: lexinv(p.Lexer) holds whenever the driver calls Parser.Lex (established by NewLexer, preserved by Lex: both proved; Lexer's fields are unexported, so only internal/scanner writes them)"] = true
@@ -471,17 +522,6 @@ func (dv *driver) setup(se *scanEngine, x *Exec) {
 		if callee.Name() == "Error" && callee.Signature.Recv() != nil && strings.HasSuffix(funcPkgPath(callee), dv.pkg) {
 			h := x.heapGet(cst, "G:ghost.errcalls", SArrII)
 			x.heapSet(cst, "G:ghost.errcalls", tStore(h, mkInt(0), tAdd(tSelect(h, mkInt(0)), mkInt(1))))
-		}
-	}
-	// table facts
-	for _, f := range dv.facts {
-		if !f.ok {
-			continue
-		}
-		ifc := &frameCtx{pkgPath: dv.pkg, fn: dv.fn, params: map[string]TV{}, env: map[ssa.Value]Val{}}
-		st := &State{Guard: tTrue, Heap: map[string]*Term{}, Alloc: mkInt(0)}
-		for _, cj := range conjuncts(x.evalBool(ifc, st, f.expr, dv.tableBinds())) {
-			x.Sc.AssertTop(cj)
 		}
 	}
 }
